@@ -500,7 +500,7 @@ PROPS = {
         compare=[
             dict(src="w_expr.cpp", name="expr", params="faults=1", quick=6400, thorough=48000,
                  configs_quick=["S20d", "S17r", "S20r", "S17d"], configs=["S20d", "S17r", "S20r", "S17d", "S20dv", "S17rv", "S20rv", "S17dv"]),
-            dict(src="w_stream.cpp", name="stream", params="", quick=3200, thorough=24000,
+            dict(src="w_stream.cpp", name="stream", params="cmp=1", quick=3200, thorough=24000,
                  configs_quick=["S20d", "S17r"], configs=["S20d", "S17r", "S20r", "S17d"]),
             dict(src="w_coro.cpp", name="coro", params="", quick=3200, thorough=24000,
                  configs_quick=["S20d", "S20r"], configs=["S20d", "S20r", "S20dv", "S20rv"]),
